@@ -211,6 +211,18 @@ func slots() []slot {
 		{"activity.actor", true, func(from, id string, ref any) M {
 			return M{"type": "Announce", "id": id, "actor": ref, "object": note(id+"/obj", from, "own note"), "published": "2019-01-01T00:00:00Z"}
 		}},
+		{"activity.object.create-wrapped-victim-id", false, func(from, id string, ref any) M {
+			// Lemmy style: the object is an inline Create whose own (unverified) id names the victim's host
+			return M{"type": "Announce", "id": id, "actor": from + "/users/mallory", "published": "2019-01-01T00:00:00Z",
+				"object": M{"type": "Create", "id": h1 + "/acts/claimed", "actor": from + "/users/mallory", "object": ref}}
+		}},
+		{"outbox.item.create-wrapped", false, func(from, id string, ref any) M {
+			d := actor(id, from, "carrier actor")
+			d["outbox"] = M{"type": "OrderedCollection", "id": id + "/outbox", "totalItems": 1.0,
+				"orderedItems": []any{M{"type": "Announce", "id": id + "/act", "actor": id, "published": "2019-01-01T00:00:00Z",
+					"object": M{"type": "Create", "id": h1 + "/acts/claimed2", "actor": id, "object": ref}}}}
+			return d
+		}},
 		{"create.object", false, func(from, id string, ref any) M {
 			return M{"type": "Create", "id": id, "actor": from + "/users/mallory", "object": ref, "published": "2019-01-01T00:00:00Z"}
 		}},
@@ -430,7 +442,7 @@ func refDecoded(ref any) any {
 
 func main() {
 	r := ev.New("C02", "model_checking",
-		"attack worlds: attacker host in {evil, h2} x 10 reference slots (inReplyTo, attributedTo, audience, reply item, activity object/actor, Create object, outbox item, collection item, first page) x 20 presentations of a forged copy of h1's note or actor "+
+		"attack worlds: attacker host in {evil, h2} x 12 reference slots (inReplyTo, attributedTo, audience, reply item, activity object/actor, Create object, an inline Create wrapper with a claimed id, outbox item, collection item, first page) x 20 presentations of a forged copy of h1's note or actor "+
 			"(embedded copy, stubs, URL to a forging path, redirects to the victim / a third-host copy / relative, victim-host open redirect, open redirect used as id, id with :443 / upper case / userinfo / trailing dot / missing / wrong type, genuine URL) "+
 			"x warming history {cold, victim cached, reference cached, carrier fetched before} x cache size {1,2,128}; each through pub.New (by URL twice, embedded with attacker source, embedded without source) with every reachable item inspected, and through client.FetchUnknown three times; "+
 			"every object names its serving host in its visible text and in a stamp; distinct_nontrivial = attack cases (not the genuine-URL control)")
